@@ -36,6 +36,19 @@ def cases(rng, tier):
                 c["a"] = str(rng.choice([Fraction(2), Fraction(-2), Fraction(1, 2), Fraction(4), Fraction(-1),
                                          Fraction(1, 2 ** 40), Fraction(-1, 2 ** 36), Fraction(2 ** 10)]))
                 c["b"] = str(Fraction(rng.choice([rng.randint(-8, 8), 2 ** 20, -2 ** 24, 0])))
+                if rng.random() < 0.35:
+                    # jumps in perfect-square ratios with a square-root smoothing: the window shares are rational, and for
+                    # many window sizes share * a is a whole number - the split must not depend on the unit of y
+                    k0, lev, ys = rng.choice([1, 2, 3, 6]), Fraction(rng.randint(-8, 8)), []
+                    for _ in range(m):
+                        ys.append(lev)
+                        lev += rng.choice([1, -1]) * k0 * rng.choice([1, 4, 9, 16, 4, 9])
+                    base["y"] = [str(v) for v in ys]
+                    base["smooth"] = 0.5
+                    base["alpha"], base["a"] = None, rng.randint(2, base["n"])
+                    base.pop("afloat", None)
+                    c["a"] = str(rng.choice([Fraction(2), Fraction(1, 2), Fraction(8), Fraction(-2), Fraction(1, 8)]))
+                    c["b"] = str(Fraction(rng.choice([0, 3, 1, -5])))
             else:
                 a = rng.dyadic(-24, 24, 8)
                 c["a"] = str(a if a != 0 else Fraction(3, 2))
